@@ -19,7 +19,8 @@ RULE = ('connected graphs with >= 1 bond: chains, stars, rings, fused rings, ran
         'the (external) Kamada-Kawai engine and the distance table handed to it are captured in-process; the Lean model '
         '(Float instance) must reproduce the distance table and the rescaled positions at 1e-9; oracle: one finite '
         'position per node, bonded nodes distinct, mean bond length = requested length (1e-9 relative), also after '
-        'relabeling; non-trivial = >= 3 nodes')
+        'relabeling; sequences of molecules drawn one after the other through draw_molecule with different bond lengths '
+        '(oracle only: each drawing has the scale it asked for); non-trivial = >= 3 nodes')
 ASSUMPTIONS = ['networkx spring / Kamada-Kawai layouts are external (contract Y0: one finite 2-vector per node, bonded nodes '
                'apart — checked on every captured call)', 'IEEE rounding: the mean equals the requested length to ~1e-12 only']
 TRUSTED_EXTRA = ['networkx layout engines, numpy; floating point is executed (Float), proved over the reals']
@@ -176,6 +177,41 @@ def refined_case(ctx, g, b, align, case):
         ctx.fail(case, f'refined layout: mean bond length {mean:.4f} but default_bond={b} (align_with={None if align is None else list(align)})')
 
 
+def drawn_sequence(ctx, mols, case):
+    """the purpose clause of the property — "different molecules are drawn at the same scale": molecules drawn one after
+    the other through `draw_molecule` (the consumer of the layouts), each with its own requested bond length; the
+    positions it returns have that mean bond length for every drawing of the sequence, not only the first"""
+    try:
+        import matplotlib
+        matplotlib.use('Agg')
+        import matplotlib.pyplot as plt
+        from cgsmiles.drawing import draw_molecule
+    except Exception:    # noqa: BLE001 - no drawing backend here
+        ctx.feature('drawn:no-matplotlib')
+        return
+    for k, (aa, b) in enumerate(mols):
+        np.random.seed(case.get('seed', 0) + k)
+        fig, ax = plt.subplots()
+        try:
+            with lib.quiet():
+                _, pos = draw_molecule(aa, ax=ax, layout_method='vespr', default_bond=b)
+        except Exception as err:   # noqa: BLE001
+            plt.close(fig)
+            ctx.fail(case, f'draw_molecule (drawing {k + 1} of the sequence) raised {type(err).__name__}: {str(err)[:80]}')
+            return
+        plt.close(fig)
+        ctx.count('drawn', lib.stable_hash([case['seq'][k], b, k]), nontrivial=len(aa) >= 3, sample={'s': case['seq'][k], 'bond': b})
+        if set(pos) != set(aa.nodes):
+            ctx.fail(case, f'draw_molecule (drawing {k + 1}): not one position per atom')
+            return
+        lens = [float(np.linalg.norm(np.asarray(pos[a]) - np.asarray(pos[c]))) for a, c in aa.edges]
+        mean = sum(lens) / len(lens)
+        if abs(mean - b) > 1e-6 * b:
+            ctx.fail(case, f'drawing {k + 1} of a sequence of drawings: mean bond length {mean:.6f} but default_bond={b} '
+                           f'(bond lengths requested so far: {[x for _, x in mols[:k + 1]]})')
+            return
+
+
 def small_graphs():
     """the smallest and the most symmetric connected graphs: always laid out first"""
     out = [nx.path_graph(2), nx.path_graph(3), nx.cycle_graph(3), nx.complete_graph(4), nx.star_graph(3)]
@@ -251,6 +287,27 @@ def run(ctx):
         case = {'kind': 'layout-refined', 's': c['s'], 'bond': b, 'seed': i, 'align': None if align is None else list(map(float, align))}
         ctx.feature('refined:' + ('no-axis' if align is None else 'unit-axis' if abs(np.linalg.norm(align) - 1) < 1e-12 else 'non-unit-axis'))
         refined_case(ctx, aa, b, align, case)
+    drawn_suite(ctx, rng)
+
+
+def drawn_suite(ctx, rng):
+    for i in range(ctx.budget(3, 30)):
+        mols, seq = [], []
+        for _ in range(3):
+            c = gen_mol.cut_case(rng, nmin=3, nmax=6)
+            try:
+                with lib.quiet():
+                    _, aa = impl.resolver_from_string(c['s']).resolve()
+            except Exception:   # noqa: BLE001
+                continue
+            if aa.number_of_edges() == 0 or not nx.is_connected(aa):
+                continue
+            mols.append((aa, rng.choice([1.0, 0.5, 2.0, 1.5])))
+            seq.append(c['s'])
+        if len(mols) >= 2:
+            if len({b for _, b in mols}) == 1:
+                mols[-1] = (mols[-1][0], mols[-1][1] * 2)
+            drawn_sequence(ctx, mols, {'kind': 'drawn', 'seq': seq, 'bonds': [b for _, b in mols], 'seed': i})
 
 
 def graph_of(case):
@@ -266,6 +323,14 @@ def graph_of(case):
 
 def corpus_case(ctx, payload):
     case = payload['case']
+    if case.get('kind') == 'drawn':
+        mols = []
+        for t, b in zip(case['seq'], case['bonds']):
+            with lib.quiet():
+                _, aa = impl.resolver_from_string(t).resolve()
+            mols.append((aa, b))
+        drawn_sequence(ctx, mols, case)
+        return
     if case.get('kind') == 'layout-refined':
         with lib.quiet():
             _, aa = impl.resolver_from_string(case['s']).resolve()
@@ -278,7 +343,7 @@ def replay(payload):
     import check
     ctx = check.Ctx(PROP, 'quick', 0, oracle_only=True)
     case = payload['case']
-    if case.get('kind') == 'layout-refined':
+    if case.get('kind') in ('layout-refined', 'drawn'):
         corpus_case(ctx, payload)
     else:
         layout_case(ctx, 'replay', graph_of(case), case['bond'], case)
